@@ -22,13 +22,15 @@ def _g(mode, kind, depth, name, **kw):
 
 
 _GEN_C17 = dict(
-    quick=[_g("core", "edges", 9, "core-edges", max=45),
-           _g("del", "edges", 8, "deletion-edges", max=60),
-           _g("timeout", "edges", 7, "timeout-edges", max=10),
-           _g("forced", "edges", 9, "forced-schedules", max=8),
-           _g("del", "sim", 11, "deletion-walks", num=12, max=25, salt=1)],
+    quick=[_g("core", "edges", 9, "core-edges", max=30),
+           _g("del", "edges", 8, "deletion-edges", max=40),
+           _g("late", "edges", 9, "late-response-edges", max=12),
+           _g("timeout", "edges", 7, "timeout-edges", max=6),
+           _g("forced", "edges", 9, "forced-schedules", max=6),
+           _g("del", "sim", 11, "deletion-walks", num=12, max=16, salt=1)],
     thorough=[_g("core", "edges", 10, "core-edges", max=500),
               _g("del", "edges", 9, "deletion-edges", max=900),
+              _g("late", "edges", 10, "late-response-edges", max=150),
               _g("timeout", "edges", 8, "timeout-edges", max=80),
               _g("forced", "edges", 10, "forced-schedules", max=60),
               _g("del", "sim", 14, "deletion-walks", num=120, max=400, salt=1),
